@@ -87,6 +87,15 @@ Theorem C13_recorded_T_is_schedule p t0 ts n :
 Proof. exact (recorded_T p t0 ts n). Qed.
 Print Assumptions C13_recorded_T_is_schedule.
 
+(* ... also when the run consists of several solve() calls and the specification (any kind, through any
+   route) is changed in between: each step carries the schedule in force during its own call *)
+Theorem C13_recorded_T_segments p0 t0 segs :
+  p_time Rops (run_segs Rops p0 t0 segs) = t0 :: concat (map snd segs) /\
+  p_temp Rops (run_segs Rops p0 t0 segs) =
+    sched Rops p0 t0 :: concat (map (fun sg => map (sched Rops (fst sg)) (snd sg)) segs).
+Proof. exact (run_segs_spec p0 t0 segs). Qed.
+Print Assumptions C13_recorded_T_segments.
+
 (* ---- constructor parameter object = setter -------------------------------------------------- *)
 Theorem C13_ctor_eq_setter a : ctor Rops a = via_setter Rops a.
 Proof. exact (ctor_setter a). Qed.
